@@ -19,6 +19,7 @@ var units = map[string]common.UnitFunc{
 	"c20core":     unitC20core,
 	"c10core":     unitC10core,
 	"c11scripted": unitC11scripted,
+	"c11ctx":      unitC11ctx,
 	"c07honest":   unitC07honest,
 	"c07byz":      unitC07byz,
 	"c13sess":     unitC13sess,
